@@ -64,8 +64,8 @@ func c19Analyse(c *Ctx, p *Program) {
 		pp := fn.Pkg.Pkg.Path()
 		return !strings.Contains(pp, "/cmd/") && !strings.HasSuffix(pp, "/animation") && !strings.HasSuffix(pp, "/mux")
 	}
-	img := map[ssa.Value]bool{}  // input image objects (interfaces and asserted pointers)
-	pix := map[ssa.Value]bool{}  // pixel slices of input images
+	img := map[ssa.Value]bool{}     // input image objects (interfaces and asserted pointers)
+	pix := map[ssa.Value]bool{}     // pixel slices of input images
 	cellImg := map[ssa.Value]bool{} // captured variables holding an input image
 	cellPix := map[ssa.Value]bool{} // captured variables holding an input pixel slice
 	encRoots := map[*ssa.Function]bool{}
